@@ -180,6 +180,14 @@ def gen_cover_misc(cases):
         [("el", "xml:a", [], [("el", "xmlns:b", [], [])])],
         [("el", "r:a", [("r:x", "1")], [("el", "r:b", [], [])])],
         [("el", "a", [("xmlns:p", X.XML_URI), ("p:x", "1")], [])],
+        # attributes that merely look like declarations (local name xmlns under another prefix) are ordinary attributes
+        [("el", "a", [("xmlns:a", U), ("a:xmlns", "v")], [("el", "b", [("a:xmlns", "w"), ("x", "1")], [])])],
+        [("el", "a", [("xml:xmlns", "v"), ("xmlnsx", "1")], [])],
+        [("el", "a", [("p:xmlns", "v")], [("el", "a:xmlns", [], [])])],
+        # three levels on one prefix / the default namespace: A, then B (or undeclared), then A again
+        [("el", "p:a", [("xmlns:p", U)], [("el", "p:b", [("xmlns:p", V)], [("el", "p:c", [("xmlns:p", U), ("p:x", "1")], [])])])],
+        [("el", "a", [("xmlns", U)], [("el", "b", [("xmlns", "")], [("el", "c", [("xmlns", U)], [("el", "d", [], [])])])])],
+        [("el", "a", [("xmlns", U)], [("el", "b", [("xmlns", V)], [("el", "c", [("xmlns", U)], [])])])],
     ]
     for d in docs:
         doc_cases(d, "cover-misc", cases)
